@@ -303,7 +303,7 @@ class CourierServer(metaclass=_CourierServerSingleton):
       courier_server = self.build_server()
       if not courier_server.has_started:
         courier_server.Start()
-      if not self._thread:
+      if not self._thread or not self._thread.is_alive():
         self._thread = threading.Thread(
             target=self.run_until_shutdown, daemon=True
         )
